@@ -173,6 +173,14 @@ def correspondence(ctx):
             if bad:
                 ctx.violation('nonconforming:%s:%s:%s' % (op, a, b), {'cell': [op, a, b], 'observed': rec,
                                                                        'why': 'run-time results %s do not conform to the inferred %s' % ([c[0] for c in bad][:3], rec['type'])})
+        aug = rec.get('aug')
+        if aug is not None and 'raised' not in rec:
+            ctx.count('augmented-assignment-cells')
+            if aug['incompatible'] != rec['incompatible'] or (not rec['incompatible'] and aug['type'] != rec['type']):
+                ctx.violation('augmented-assignment-differs:%s:%s:%s' % (op, a, b),
+                              {'cell': [op, a, b], 'plain': {'incompatible': rec['incompatible'], 'type': rec['type']}, 'augmented': aug,
+                               'why': 'r = a %s b is typed %s (incompatible=%s) but  r = a; r %s= b  leaves r typed %s (incompatible=%s)'
+                                      % (op, rec['type'], rec['incompatible'], op, aug['type'], aug['incompatible'])})
         if op in BINOPS:
             results = sorted(set(rec['results']))
             if op == 'Mod' and a == 'str':
